@@ -24,7 +24,7 @@ type vFile struct {
 type vCrash struct{}
 
 func (f *vFile) WriteAt(p []byte, off int64) (int, error) {
-	if f.yield && rt.Choose(2) == 1 {
+	if f.yield && rt.ChooseSchedule(2) == 1 {
 		// the writer is descheduled just before the system call: the other goroutines run until they block or finish
 		if rt.Symbolic() {
 			runtime.Gosched()
@@ -228,12 +228,19 @@ func VerifCrashHistory() {
 // write possibly overtaken by the other goroutine - are, after a restart, both replayed once, at
 // the physical offsets of their documents.
 func VerifConcurrentBulks() {
+	for r := 0; r < rt.Repeat(); r++ { // natively the scheduling decisions are random: repeat the scenario
+		vConcurrentBulks()
+	}
+}
+
+func vConcurrentBulks() {
 	docs, meta := &vFile{tearAt: -1}, &vFile{tearAt: -1}
 	w, _, _ := vRestart(docs, meta)
 	docs.yield, meta.yield = true, true
 	const n = 2
 	var wg sync.WaitGroup
 	var blen int
+	werr := make([]error, n)
 	for i := 0; i < n; i++ {
 		db := disk.PackDocBlock([]byte{byte(0xD0 + i)}, nil)
 		mb := disk.PackDocBlock([]byte{byte(0xA0 + i)}, nil)
@@ -241,12 +248,14 @@ func VerifConcurrentBulks() {
 		wg.Add(1)
 		go func() {
 			defer wg.Done()
-			err := w.Write(db, mb, stopwatch.New())
-			rt.Assert(err == nil, "write without I/O error succeeds")
+			werr[i] = w.Write(db, mb, stopwatch.New())
 		}()
 	}
 	wg.Wait()
 	docs.yield, meta.yield = false, false
+	for i := 0; i < n; i++ { // (asserted here: a failed assertion in another goroutine would take the process down)
+		rt.Assert(werr[i] == nil, "write without I/O error succeeds")
+	}
 	rt.Reach("written")
 	rt.Assert(len(docs.data) == n*blen, "both document blocks are in the docs file")
 	_, tasks, err := vRestart(docs, meta)
@@ -277,13 +286,14 @@ func VerifConcurrentBulks() {
 // vSyncFile: a file with a page cache.  Written bytes become durable only by a Sync that
 // started after the write completed.
 type vSyncFile struct {
+	mu      sync.Mutex // the model itself is thread-safe, like a file
 	written []bool
 	durable []bool
 	syncs   int
 }
 
 func vYield() {
-	if rt.Choose(2) == 1 {
+	if rt.ChooseSchedule(2) == 1 {
 		if rt.Symbolic() {
 			runtime.Gosched()
 		} else {
@@ -294,6 +304,8 @@ func vYield() {
 
 func (f *vSyncFile) WriteAt(p []byte, off int64) (int, error) {
 	vYield() // descheduled before the system call
+	f.mu.Lock()
+	defer f.mu.Unlock()
 	for len(f.written) < int(off)+len(p) {
 		f.written = append(f.written, false)
 		f.durable = append(f.durable, false)
@@ -305,8 +317,12 @@ func (f *vSyncFile) WriteAt(p []byte, off int64) (int, error) {
 }
 
 func (f *vSyncFile) Sync() error {
+	f.mu.Lock()
 	snapshot := append([]bool(nil), f.written...) // what the kernel flushes: the writes completed so far
-	vYield()                                    // the flush takes time: other writers go on meanwhile
+	f.mu.Unlock()
+	vYield() // the flush takes time: other writers go on meanwhile
+	f.mu.Lock()
+	defer f.mu.Unlock()
 	for i, w := range snapshot {
 		if w {
 			f.durable[i] = true
@@ -320,29 +336,42 @@ func (f *vSyncFile) Sync() error {
 // interleaving, a Write that returned has its bytes on disk (a later fsync started after its
 // WriteAt completed), at the offset it reports, not overlapping the other writer's bytes.
 func VerifFileWriterDurable() {
+	for r := 0; r < rt.Repeat(); r++ {
+		vFileWriterDurable()
+	}
+}
+
+func vFileWriterDurable() {
 	f := &vSyncFile{}
 	fw := NewFileWriter(f, 0, false)
 	const n = 2
 	var wg sync.WaitGroup
 	offs := make([]int64, n)
+	werr := make([]error, n)
+	durable := make([]bool, n)
 	lens := []int{2, 3}
 	for i := 0; i < n; i++ {
 		wg.Add(1)
 		go func() {
 			defer wg.Done()
 			off, err := fw.Write(make([]byte, lens[i]), stopwatch.New())
-			rt.Assert(err == nil, "write without I/O error succeeds")
-			offs[i] = off
+			offs[i], werr[i] = off, err
 			// acknowledged: every byte of this write must already be durable
+			durable[i] = true
 			for b := 0; b < lens[i]; b++ {
-				ok := int(off)+b < len(f.durable) && f.durable[int(off)+b]
-				rt.Assert(ok, "an acknowledged write is durable (fsync completed after the write)")
+				if !(int(off)+b < len(f.durable) && f.durable[int(off)+b]) {
+					durable[i] = false
+				}
 			}
-			rt.Reach("acked")
 		}()
 	}
 	wg.Wait()
 	fw.Stop()
+	for i := 0; i < n; i++ { // (asserted here: a failed assertion in another goroutine would take the process down)
+		rt.Assert(werr[i] == nil, "write without I/O error succeeds")
+		rt.Assert(durable[i], "an acknowledged write is durable (fsync completed after the write)")
+	}
+	rt.Reach("acked")
 	rt.Assert(offs[0] != offs[1], "writers get distinct offsets")
 	rt.Assert(offs[0]+int64(lens[0]) <= offs[1] || offs[1]+int64(lens[1]) <= offs[0], "regions of concurrent writers do not overlap")
 	rt.Assert(len(f.written) == lens[0]+lens[1], "the file has no holes")
